@@ -1,6 +1,8 @@
 import NeoFS.Lemmas.UpgradeBalance
 import NeoFS.Lemmas.UpgradeContainer
 import NeoFS.Lemmas.UpgradeNetmap2
+import NeoFS.Lemmas.UpgradeAlphabet
+import NeoFS.Lemmas.UpgradeNNS
 /-! # C16 — Contract upgrade is committee-gated, version-monotonic, data-preserving
 
 Property theorems only. Model: `NeoFS/Model/Upgrade*.lean`; helper lemmas: `NeoFS/Lemmas/Upgrade*.lean`.
@@ -80,7 +82,7 @@ theorem caller_data_is_irrelevant (k : Kind) (hk : k ≠ .alphabet) (st st₁ st
     st₁ = st₂ := by
   obtain ⟨_, _, _, v1, a1, _, m1⟩ := update_some h₁
   obtain ⟨_, _, _, v2, a2, _, m2⟩ := update_some h₂
-  have : migrate k st.ver a1 env.height st.store = migrate k st.ver a2 env.height st.store := by
+  have : migrate k st.ver a1 env st.store = migrate k st.ver a2 env st.store := by
     cases k <;> first | rfl | exact absurd rfl hk
   rw [this, m2] at m1
   cases st₁; cases st₂
@@ -123,9 +125,9 @@ theorem updated_contract_refuses_update (k : Kind) (st : CState) (hv : st.ver = 
 -- non-vacuity: n = 7 committee; the 4-of-7 account passes, the Alphabet's 5-of-7 account and a single
 -- member do not; the bounds are sharp
 def c7 : List Nat := [0, 1, 2, 3, 4, 5, 6]
-def byCommittee : Env := ⟨[.msig 4 c7], c7, [], 100⟩
-def byAlphabet : Env := ⟨[.msig 5 c7, .single 0], c7, [], 100⟩
-def byRoleMajority : Env := ⟨[.msig 2 [0, 1, 2]], c7, [0, 1, 2], 100⟩
+def byCommittee : Env := ⟨[.msig 4 c7], c7, [], 100, {}⟩
+def byAlphabet : Env := ⟨[.msig 5 c7, .single 0], c7, [], 100, {}⟩
+def byRoleMajority : Env := ⟨[.msig 2 [0, 1, 2]], c7, [0, 1, 2], 100, {}⟩
 example : (update .proxy ⟨15004, []⟩ byCommittee .null true).map (·.ver) = some 20000 := by decide
 example : (update .proxy ⟨19999, []⟩ byCommittee (.array [.int 20001]) true).map (·.ver) = some 20000 := by decide
 example : update .proxy ⟨15003, []⟩ byCommittee .null true = none := by decide
@@ -415,30 +417,172 @@ theorem neofsid_upgrade_preserves_keys (st st' : CState) (env : Env) (data : Ite
   obtain ⟨_, _, _, _, args, _, hm⟩ := update_some h
   exact neofsid_keys_preserved hm owner
 
-/-- Alphabet: on every MODELLED path a HALTed `update` removes the `notary` flag at most.
-`_partial`: the path of a non-notary Alphabet contract without pending votes (`notary` = true: GAS is
-distributed to the Proxy contract and the nodes, `proxyScriptHash` is rewritten) is not modelled - the model
-FAULTs there - so this statement says nothing about it; the harness never drives the real contract into it. -/
-theorem alphabet_upgrade_keeps_storage_partial (st st' : CState) (env : Env) (data : Item) (nefOk : Bool)
-    (h : update .alphabet st env data nefOk = some st') (q : Bytes) (hq : q ≠ notaryKey) :
-    get st'.store q = get st.store q := by
-  obtain ⟨_, _, _, _, args, _, hm⟩ := update_some h
-  simp only [migrate] at hm
-  rcases alphabetMigrate_spec hm with e | e
-  · rw [e]
-  · rw [e, get_del_other _ _ _ hq]
-
 -- non-vacuity
-def alphaArgs : Item := .array [.bool false, .bytes (List.replicate 20 1), .bytes (List.replicate 20 2), .bytes [97, 122]]
-example : (update .alphabet ⟨16999, [(notaryKey, [0]), ([110, 97, 109, 101], [97, 122])]⟩ byCommittee alphaArgs true).map (·.store) =
-    some [([110, 97, 109, 101], [97, 122])] := by decide
-example : update .alphabet ⟨16999, [(notaryKey, [0])]⟩ byCommittee .null true = none := by decide
-example : (update .alphabet ⟨17000, [(notaryKey, [1])]⟩ byCommittee .null true).map (·.store) = some [(notaryKey, [1])] := by decide
 def idOwner : Bytes := 53 :: List.replicate 24 1
 def idStore : Store := [(111 :: idOwner ++ [2, 5], [1]), (111 :: idOwner ++ [2, 4], [1]), (netmapHashKey, [1]), (notaryKey, [1])]
 example : (update .neofsid ⟨15004, idStore⟩ byCommittee .null true).map
     (fun st => (idKeys st.store idOwner, st.store.length)) = some ([[2, 4], [2, 5]], 2) := by decide
 example : idKeys idStore idOwner = [[2, 4], [2, 5]] := by decide
+
+/-! ## 5a. Alphabet (the non-notary contract distributes its GAS on upgrade)
+
+`env.alpha` is what the migration sees of the chain: its own hash, the native Notary contract, the Netmap
+contract with the answers of `netmap()` / `innerRingList()`, the NNS record of Proxy, and the native GAS /
+Notary `Ledger` before the invocation. `ledgerAfterUpdate` is the ledger after it. Balances are sums of signed
+entries; `cnt ks a` counts how often the account of key `a` occurs among the paid nodes. -/
+
+/-- **Alphabet upgrade preserves the storage the read API reads**: whatever the storage held, a HALTed `update`
+writes at most `notary`, `ballots` and `proxyScriptHash`; name, index, threshold and the Netmap address are
+untouched (`name()` answers as before), and `proxyScriptHash`, if written, holds the 20-byte Proxy address passed
+by the caller or the NNS record of Proxy -/
+theorem alphabet_upgrade_preserves_storage (st st' : CState) (env : Env) (data : Item) (nefOk : Bool)
+    (h : update .alphabet st env data nefOk = some st') :
+    (∀ q, q ∉ [notaryKey, voteKey, alphaProxyKey] → get st'.store q = get st.store q) ∧
+    (∀ k ∈ [alphabet_nameKey_bytes, alphabet_indexKey_bytes, alphabet_totalKey_bytes, alphabet_netmapKey_bytes],
+      get st'.store k = get st.store k) ∧
+    (get st'.store alphaProxyKey = get st.store alphaProxyKey ∨
+      ∃ proxy, (proxy.length = 20 ∨ env.alpha.nnsProxy = some proxy) ∧ get st'.store alphaProxyKey = some proxy) := by
+  have main : (∀ q, q ∉ [notaryKey, voteKey, alphaProxyKey] → get st'.store q = get st.store q) ∧
+      (get st'.store alphaProxyKey = get st.store alphaProxyKey ∨
+        ∃ proxy, (proxy.length = 20 ∨ env.alpha.nnsProxy = some proxy) ∧ get st'.store alphaProxyKey = some proxy) := by
+    have pk1 : alphaProxyKey ≠ notaryKey := by decide
+    have pk2 : alphaProxyKey ≠ voteKey := by decide
+    rcases alphabet_update_cases h with ⟨_, args, _, hf⟩ | ⟨_, hs, _⟩
+    · cases alphabetSwitchFull_outcome hf with
+      | notarized _ hs _ => rw [hs]; exact ⟨fun _ _ => rfl, Or.inl rfl⟩
+      | flagFalse nv _ _ hs _ =>
+        rw [hs]
+        refine ⟨fun q hq => get_del_other _ _ _ (fun e => hq (by simp [e])), Or.inl (get_del_other _ _ _ pk1)⟩
+      | distributed nv _ _ proxy hlen _ _ hs =>
+        rw [hs]
+        refine ⟨?_, Or.inr ⟨proxy, hlen, ?_⟩⟩
+        · intro q hq
+          simp only [List.mem_cons, List.not_mem_nil, or_false, not_or] at hq
+          rw [get_del_other _ _ _ hq.1, get_put_other _ _ _ _ hq.2.2, get_del_other _ _ _ hq.2.1]
+        · rw [get_del_other _ _ _ pk1, get_put_self]
+    · rw [hs]; exact ⟨fun _ _ => rfl, Or.inl rfl⟩
+  refine ⟨main.1, ?_, main.2⟩
+  intro k hk
+  apply main.1
+  have : ∀ k ∈ [alphabet_nameKey_bytes, alphabet_indexKey_bytes, alphabet_totalKey_bytes, alphabet_netmapKey_bytes],
+      k ∉ [notaryKey, voteKey, alphaProxyKey] := by decide
+  exact this k hk
+
+/-- **GAS conservation and the documented split.** After a HALTed `update` of an Alphabet contract the total
+amount of GAS is what it was, and either no GAS moved at all, or - version before 0.17, flag reads true, no
+pending vote - with `b` the contract's balance, `n` the number of Inner Ring plus storage nodes and
+`(toProxy, simple, part) = alphaShares b n` (= `b*3/4/2`, and the per-node rest split into the node's account and
+its Notary deposit, the latter capped at 20 GAS): Proxy gains `toProxy`, the account of every node key gains `simple`
+and its Notary deposit `part` per occurrence, the Notary contract holds the deposits, the contract loses exactly
+the sum, and NO other account changes. -/
+theorem alphabet_upgrade_gas (st st' : CState) (env : Env) (data : Item) (nefOk : Bool)
+    (h : update .alphabet st env data nefOk = some st') :
+    totalGas (ledgerAfterUpdate .alphabet st env data nefOk) = totalGas env.alpha.ledger ∧
+    (ledgerAfterUpdate .alphabet st env data nefOk = env.alpha.ledger ∨
+      ∃ nv proxy snKeys, st.ver < 17000 ∧ get st.store notaryKey = some nv ∧ bytesToBool nv = some true ∧
+        nodeKeys env.alpha.nodes = some snKeys ∧ get st'.store alphaProxyKey = some proxy ∧
+        (∀ a, balOf (ledgerAfterUpdate .alphabet st env data nefOk) a = balOf env.alpha.ledger a
+          + (if proxy = a then (alphaShares (balOf env.alpha.ledger env.alpha.self)
+                ((env.alpha.nodes.length + env.alpha.irKeys.length : Nat) : Int)).1 else 0)
+          + (alphaShares (balOf env.alpha.ledger env.alpha.self)
+                ((env.alpha.nodes.length + env.alpha.irKeys.length : Nat) : Int)).2.1 * cnt (env.alpha.irKeys ++ snKeys) a
+          + (if env.alpha.notary = a then (alphaShares (balOf env.alpha.ledger env.alpha.self)
+                ((env.alpha.nodes.length + env.alpha.irKeys.length : Nat) : Int)).2.2
+              * ((env.alpha.irKeys ++ snKeys).length : Int) else 0)
+          - (if env.alpha.self = a then (alphaShares (balOf env.alpha.ledger env.alpha.self)
+                ((env.alpha.nodes.length + env.alpha.irKeys.length : Nat) : Int)).1
+              + ((alphaShares (balOf env.alpha.ledger env.alpha.self)
+                  ((env.alpha.nodes.length + env.alpha.irKeys.length : Nat) : Int)).2.1
+                + (alphaShares (balOf env.alpha.ledger env.alpha.self)
+                  ((env.alpha.nodes.length + env.alpha.irKeys.length : Nat) : Int)).2.2)
+                * ((env.alpha.irKeys ++ snKeys).length : Int) else 0)) ∧
+        (∀ a, depOf (ledgerAfterUpdate .alphabet st env data nefOk) a = depOf env.alpha.ledger a
+          + (alphaShares (balOf env.alpha.ledger env.alpha.self)
+                ((env.alpha.nodes.length + env.alpha.irKeys.length : Nat) : Int)).2.2 * cnt (env.alpha.irKeys ++ snKeys) a)) := by
+  rcases alphabet_update_cases h with ⟨hv, args, _, hf⟩ | ⟨_, _, hl⟩
+  · cases alphabetSwitchFull_outcome hf with
+    | notarized _ _ hl => rw [hl]; exact ⟨rfl, Or.inl rfl⟩
+    | flagFalse nv _ _ _ hl => rw [hl]; exact ⟨rfl, Or.inl rfl⟩
+    | distributed nv hflag hb proxy _ _ hd hs =>
+      obtain ⟨snKeys, hk, _, _, hbal, htot, hdep⟩ := alphaDistribute_spec hd
+      refine ⟨htot, Or.inr ⟨nv, proxy, snKeys, hv, hflag, hb, hk, ?_, hbal, hdep⟩⟩
+      rw [hs, get_del_other _ _ _ (by decide), get_put_self]
+  · rw [hl]; exact ⟨rfl, Or.inl rfl⟩
+
+/-- no GAS moves unless the contract is older than 0.17 AND its `notary` flag reads true -/
+theorem alphabet_gas_untouched_unless_non_notary (st st' : CState) (env : Env) (data : Item) (nefOk : Bool)
+    (h : update .alphabet st env data nefOk = some st')
+    (hno : 17000 ≤ st.ver ∨ get st.store notaryKey = none ∨
+      ∃ nv, get st.store notaryKey = some nv ∧ bytesToBool nv = some false) :
+    ledgerAfterUpdate .alphabet st env data nefOk = env.alpha.ledger := by
+  rcases alphabet_upgrade_gas st st' env data nefOk h with ⟨_, e | ⟨nv, _, _, hv, hflag, hb, _⟩⟩
+  · exact e
+  · exfalso
+    rcases hno with h1 | h1 | ⟨nv', h1, h2⟩
+    · omega
+    · rw [h1] at hflag; cases hflag
+    · rw [h1] at hflag; simp only [Option.some.injEq] at hflag; subst hflag; rw [hb] at h2; cases h2
+
+/-- a FAULTed `update` (of any contract) moves no GAS; and what a distribution hands out never exceeds three
+quarters of the balance: the contract keeps at least a quarter -/
+theorem alphabet_fault_moves_no_gas_and_quarter_stays (k : Kind) (st : CState) (env : Env) (data : Item) (nefOk : Bool)
+    (b n : Int) (hb : 0 ≤ b) (hn : 0 < n) :
+    (update k st env data nefOk = none → ledgerAfterUpdate k st env data nefOk = env.alpha.ledger) ∧
+    (alphaShares b n).1 + n * ((alphaShares b n).2.1 + (alphaShares b n).2.2) ≤ b * 3 / 4 :=
+  ⟨ledgerAfterUpdate_fault, alphaShares_le b n hb hn⟩
+
+/-- **a pending vote blocks the Alphabet upgrade**: flag reads true, a readable ballot at most 20 blocks old ⇒
+`update` FAULTs - storage, version and GAS stay as they were -/
+theorem alphabet_pending_vote_blocks (st : CState) (hv : st.ver < 17000) (env : Env) (data : Item) (nefOk : Bool)
+    (nv : Bytes) (hflag : get st.store notaryKey = some nv) (htrue : bytesToBool nv = some true)
+    (l : List Item) (hball : getBallots st.store = some l)
+    (hpend : ∃ c ∈ l, ∃ bh, ballotHeight c = some bh ∧ env.height - bh ≤ 20) :
+    update .alphabet st env data nefOk = none ∧
+      ledgerAfterUpdate .alphabet st env data nefOk = env.alpha.ledger := by
+  have hu : update .alphabet st env data nefOk = none := by
+    cases hu : update .alphabet st env data nefOk with
+    | none => rfl
+    | some st' =>
+      exfalso
+      rcases alphabet_update_cases hu with ⟨_, args, _, hf⟩ | ⟨hnv, _, _⟩
+      · rw [alphabetSwitchFull_pending hflag htrue hball hpend] at hf; cases hf
+      · exact hnv hv
+  exact ⟨hu, ledgerAfterUpdate_fault hu⟩
+
+-- non-vacuity: a non-notary Alphabet contract holding 1000 GAS, one Inner Ring node and one storage node
+def alphaArgs : Item := .array [.bool false, .bytes (List.replicate 20 1), .bytes (List.replicate 20 2), .bytes [97, 122]]
+example : (update .alphabet ⟨16999, [(notaryKey, [0]), ([110, 97, 109, 101], [97, 122])]⟩ byCommittee alphaArgs true).map (·.store) =
+    some [([110, 97, 109, 101], [97, 122])] := by decide
+example : update .alphabet ⟨16999, [(notaryKey, [0])]⟩ byCommittee .null true = none := by decide
+example : (update .alphabet ⟨17000, [(notaryKey, [1])]⟩ byCommittee .null true).map (·.store) = some [(notaryKey, [1])] := by decide
+def selfH : Bytes := List.replicate 20 9
+def notaryH : Bytes := List.replicate 20 8
+def irKey : Bytes := 2 :: List.replicate 32 5
+def snKey : Bytes := 3 :: List.replicate 32 6
+def alphaWorld (gas : Int) : AlphaEnv :=
+  { self := selfH, notary := notaryH, netmapHash := List.replicate 20 1,
+    nodes := [.struct [.bytes ([10, 33] ++ snKey ++ [1]), .int 1]], irKeys := [irKey], notaryFee := 10000000,
+    ledger := { bal := [(selfH, gas)] } }
+def nonNotaryAlpha (gas : Int) : Env := { byCommittee with alpha := alphaWorld gas }
+def alphaStore : Store := [(notaryKey, [1]), (alphabet_nameKey_bytes, [97, 122]), (alphaProxyKey, [7])]
+-- 1000 GAS: 750 are distributed: 375 to Proxy, 187.5 per node = 167.5 to the account + 20 (the cap) as deposit
+example : (update .alphabet ⟨16999, alphaStore⟩ (nonNotaryAlpha 100000000000) alphaArgs true).map (·.store) =
+    some [(alphaProxyKey, List.replicate 20 2), (alphabet_nameKey_bytes, [97, 122])] := by decide
+example :
+    let L := ledgerAfterUpdate .alphabet ⟨16999, alphaStore⟩ (nonNotaryAlpha 100000000000) alphaArgs true
+    (balOf L selfH, balOf L (List.replicate 20 2), balOf L irKey, balOf L snKey) =
+      (25000000000, 37500000000, 16750000000, 16750000000) ∧
+    (balOf L notaryH, depOf L irKey, depOf L snKey, totalGas L) = (4000000000, 2000000000, 2000000000, 100000000000) := by
+  decide
+-- 1 GAS unit: "no GAS in the contract"; 1 GAS: the deposit share is below the Notary minimum: FAULT, nothing moves
+example : update .alphabet ⟨16999, alphaStore⟩ (nonNotaryAlpha 1) alphaArgs true = none := by decide
+example : update .alphabet ⟨16999, alphaStore⟩ (nonNotaryAlpha 100000000) alphaArgs true = none ∧
+    balOf (ledgerAfterUpdate .alphabet ⟨16999, alphaStore⟩ (nonNotaryAlpha 100000000) alphaArgs true) selfH = 100000000 := by
+  decide
+-- a ballot 20 blocks old blocks it
+example : update .alphabet ⟨16999, (voteKey, ballotsAt 80) :: alphaStore⟩ (nonNotaryAlpha 100000000000) alphaArgs true = none := by
+  decide
+
 
 /-! ## 6. Netmap -/
 
@@ -612,11 +756,8 @@ theorem nns_upgrade_keeps_subdomains (st st' : CState) (env : Env) (data : Item)
   exact nns_subdomain_untouched hn hv hm k val hg hh it owner name rest hd he (by unfold isTLDName; rw [hdot]; rfl)
 
 /-- **TLDs move to the committee**: a name without a dot keeps name, expiration and admin and loses its
-owner (the documented intent of 0.18, asserted by the repository's own migration test).
-`nns_balances_partial`: that the former owner's `balanceOf` drops by the number of TLDs it held and its
-token list loses exactly these names is NOT proved here (the code path is modelled - `nnsDropOwner` - and
-compared with the contract on every run; the counting argument over the loop is missing). -/
-theorem nns_upgrade_tld_loses_owner_partial (st st' : CState) (env : Env) (data : Item) (nefOk : Bool)
+owner (the documented intent of 0.18, asserted by the repository's own migration test) -/
+theorem nns_upgrade_tld_loses_owner (st st' : CState) (env : Env) (data : Item) (nefOk : Bool)
     (hn : NodupKeys st.store) (hv : st.ver < 18000) (h : update .nns st env data nefOk = some st')
     (k val : Bytes) (hg : get st.store k = some val) (hh : k.head? = some 33)
     (o name : Bytes) (rest : List Item)
@@ -626,6 +767,38 @@ theorem nns_upgrade_tld_loses_owner_partial (st st' : CState) (env : Env) (data 
   obtain ⟨_, _, _, _, args, _, hm⟩ := update_some h
   simp only [migrate] at hm
   exact nns_tld_owner_dropped hn hv hm k val hg hh o name rest hd (by unfold isTLDName; rw [hdot]; rfl)
+
+/-- **the accounting of the TLD hand-over, for every old-layout storage** (`names` = the name states in key order,
+`tldCount names o` = how many of them are TLDs held by `o`, `tldTokenKeys names` = their account-token keys
+`0x02 ‖ owner ‖ tokenKey`):
+* the balance record of every account `o` - what `balanceOf(o)` decodes - drops by exactly the number of TLDs `o`
+  held, provided the old record was consistent (at least that number; the old-layout invariant "balance = number of
+  names owned") and below `256^40`;
+* of the account-token entries (what `tokensOf(o)` lists) exactly those of the TLDs disappear, every other one keeps
+  its value;
+* `totalSupply` is untouched (TLDs stay registered, only their owner goes). -/
+theorem nns_upgrade_tld_accounting (st st' : CState) (env : Env) (data : Item) (nefOk : Bool)
+    (hn : NodupKeys st.store) (hv : st.ver < 18000) (h : update .nns st env data nefOk = some st') :
+    (∀ o, tldCount (snapshot st.store [33]) o ≤ storedIntOr0 st.store (1 :: o) →
+        storedIntOr0 st.store (1 :: o) < 256 ^ 40 →
+        storedIntOr0 st'.store (1 :: o) = storedIntOr0 st.store (1 :: o) - tldCount (snapshot st.store [33]) o) ∧
+    (∀ q, q.head? = some 2 →
+        get st'.store q = if q ∈ tldTokenKeys (snapshot st.store [33]) then none else get st.store q) ∧
+    get st'.store [0] = get st.store [0] := by
+  obtain ⟨_, _, _, _, args, _, hm⟩ := update_some h
+  simp only [migrate] at hm
+  have hm0 := hm
+  unfold nnsMigrate at hm
+  have : ¬ st.ver ≥ 18000 := by omega
+  simp only [this, if_false] at hm
+  obtain ⟨_, heads, _⟩ := nns_entries hn
+  refine ⟨?_, ?_, ?_⟩
+  · intro o h1 h2
+    exact forNames_balance hm heads o ⟨h1, h2⟩
+  · intro q hq
+    exact forNames_tokens hm heads q hq
+  · apply (touches_nnsMigrate hm0).get_eq
+    rintro (e | e | e) <;> revert e <;> decide
 
 -- non-vacuity: TLD "ab" owned by an account, sub-domain "c.ab", one record, supply
 def tldKey : Bytes := 33 :: List.replicate 20 1
@@ -639,6 +812,9 @@ def nnsOldStore : Store :=
 def nnsAfter : Option CState := update .nns ⟨17999, nnsOldStore⟩ byCommittee .null true
 example : nnsAfter.map (fun st => (nnsBalanceOf st.store ownerN, nnsTotalSupply st.store,
       get st.store subKey == get nnsOldStore subKey)) = some (some 1, some 2, true) := by decide
+example : tldCount (snapshot nnsOldStore [33]) ownerN = 1 ∧ storedIntOr0 nnsOldStore (1 :: ownerN) = 2 ∧
+    tldTokenKeys (snapshot nnsOldStore [33]) = [2 :: ownerN ++ List.replicate 20 1] ∧
+    nnsAfter.map (fun st => storedIntOr0 st.store (1 :: ownerN)) = some 1 := by decide
 example : nnsAfter.map (fun st => (get st.store tldKey, get st.store (2 :: ownerN ++ List.replicate 20 1), st.store.length)) =
     some (some (ser (.struct [.null, .bytes [97, 98], .int 1000, .null])), none, 6) := by decide
 
